@@ -8,7 +8,7 @@ from .. import common
 from ..common import dec, enc, fd_directional, find_boxes, pair, realify, sdesc, sdesc_diff, sig_key, unrealify
 
 LEVEL = "exploration"
-RULE = "Nested containers (depth 0-3, arity 0-4, tuple/list/dict with string, int (non-positional and positional-looking, negative) or tuple keys, empty containers, scalar/array leaves, real/complex) and programs that reach leaves through randomly chosen container operations (int/negative index, slices, + on both sides, iteration, unpacking, len, in, index, dict keys/values/items/get/iteration, autograd.builtins tuple/list/dict constructors mixing traced and constant elements, container-valued outputs, linalg named tuples) and apply a smooth function with random weights. Reference: Richardson FD of the same program run on plain Python containers, realified over the container; structure via O-struct; forward mode via the adjoint pairing. Constructor idioms on traced containers (mapping + keyword overrides, pairs + keywords, keywords only, copies, generators) against closed forms in both modes, and EMPTY top-level arguments (gradient keeps the empty nesting). flatten/unflatten: mutual inverse, linearity, commutation with grad. Non-trivial iff the container has >= 1 float leaf and the program touched >= 1 leaf; distinct = distinct (container structure, operation multiset) signatures."
+RULE = "Nested containers (depth 0-3, arity 0-4, tuple/list/dict with string, int (non-positional and positional-looking, negative) or tuple keys, empty containers, scalar/array leaves, real/complex) and programs that reach leaves through randomly chosen container operations (int/negative index, slices, + on both sides, iteration, unpacking, len, in, index, dict keys/values/items/get/iteration, autograd.builtins tuple/list/dict constructors mixing traced and constant elements, container-valued outputs, linalg named tuples) and apply a smooth function with random weights. Reference: Richardson FD of the same program run on plain Python containers, realified over the container; structure via O-struct; forward mode via the adjoint pairing. Constructor idioms on traced containers (mapping + keyword overrides, pairs + keywords, keywords only, copies, generators) against closed forms in both modes, and EMPTY top-level arguments (gradient keeps the empty nesting). flatten / flatten_func called INSIDE the differentiated function on the traced container (closed forms). flatten/unflatten: mutual inverse, linearity, commutation with grad. Non-trivial iff the container has >= 1 float leaf and the program touched >= 1 leaf; distinct = distinct (container structure, operation multiset) signatures."
 ASSUMPTIONS = ["plain Python containers implement the reference semantics of the container operations", "depth <= 3, arity <= 4; dict keys are all-strings or all-ints (flatten requires sortable keys)"]
 
 
